@@ -62,6 +62,13 @@ def cases(tier, seed):
             cc["budget_override"] = {"adv": 0, "api": 1, "tie": 0}
             if world.feasible(cc):
                 out.append((sc + "/elastic", cc))
+            # ... and one that leaves the release of its reservation to
+            # the Scheduler, as the Cluster documentation allows
+            cd = dict(c)
+            cd["alg"] = dict(alg, budget=0, api="norelease")
+            cd["budget_override"] = {"adv": 0, "api": 1, "tie": 0}
+            if world.feasible(cd):
+                out.append((sc + "/elastic-no-self-release", cd))
     if tier == "thorough":
         out = [(sc, dict(c, budget_override=dict(
             common.thorough_override(c, i), **c.get("budget_override", {}))))
